@@ -19,7 +19,8 @@ S(str) == str
 dStr == JArr(<<JStr(cA), JStr(<<120, 97, 98>>), JStr(cB), JStr(<<98, 97>>), JStr(<<97, 98>>)>>)           \* ["a","xab","b","ba","ab"]
 dObj == JObj(<<cA, cB>>, <<JArr(<<JInt(1), JInt(2)>>), JObj(<<cA>>, <<JInt(1)>>)>>)                       \* {"a":[1,2],"b":{"a":1}}
 dMix == JArr(<<JObj(<<cA>>, <<JInt(1)>>), JObj(<<cA>>, <<JInt(2)>>), JArr(<<JInt(1)>>), JStr(<<97, 98>>)>>) \* [{"a":1},{"a":2},[1],"ab"]
-dSet == JObj(<<<<101>>, cL>>, <<JArr(<<JInt(1), JInt(2), JInt(3)>>), JArr(<<JInt(1), JInt(2)>>)>>)          \* {"e":[1,2,3],"l":[1,2]}
+dSet == JObj(<<<<101>>, cL, cX, cY>>, <<JArr(<<JStr(cA), JStr(cB), JStr(cC)>>), JArr(<<JStr(cA), JStr(cB)>>),
+                                       JArr(<<JArr(<<JInt(1), JInt(2)>>), JArr(<<JInt(3)>>), JObj(<<cA>>, <<JInt(1)>>)>>), JArr(<<JInt(1), JInt(2)>>)>>)          \* {"e":[1,2,3],"l":[1,2]}
 dEmpty == JObj(<<<<100>>, <<105>>>>, <<JObj(<<cA>>, <<JObj(<<cA>>, <<JObj(<<cA>>, <<JInt(1)>>)>>)>>), JArr(<<>>)>>)     \* {"d":{"a":{"a":{"a":1}}},"i":[]}
 Docs0 == <<dStr, dObj, dMix, dSet, dEmpty>>
 
@@ -32,7 +33,8 @@ SQ == << Re("match", Pat1), Re("search", Pat1), Re("match", Pat2), Re("search", 
          Flt1(LTest(FALSE, EAbs(<<N1(cB)>>))),                                                                      \* 11: $[?$.b]   $-rooted existence test
          <<N1(<<101>>), Child(<<SFilter(LTest(FALSE, EFn("in", <<ERel(<<>>), EAbs(<<N1(cL)>>)>>)))>>)>>,           \* 12: $.e[?in(@, $.l)]
          <<N1(<<105>>), Desc(<<SName(cA)>>)>>,                                                                       \* 13: $.i..a   (.. applied to an empty array)
-         <<Desc(<<SName(cA)>>)>> >>                                                                                  \* 14: $..a
+         <<Desc(<<SName(cA)>>)>>,                                                                                   \* 14: $..a
+         <<N1(cX), Child(<<SFilter(LCmp("==", ERel(<<>>), EAbs(<<N1(cY)>>)))>>)>> >>                                  \* 15: $.x[?@ == $.y]   container equality                                                                                  \* 14: $..a
 Entries == <<"query", "query_with_path", "query_only_path", "prepared">>
 
 OpBlank == [k |-> "eval", e |-> "", q |-> 0, d |-> 0, loc |-> <<>>, v |-> JNull]
@@ -48,7 +50,8 @@ Ops == << Ev("query", 1, 1), Ev("prepared", 2, 1), Ev("query_only_path", 2, 1), 
           Ev("query", 13, 5), Ev("prepared", 13, 5), Ev("query_with_path", 14, 5), Ev("prepared", 14, 2),
           Wr(1, <<IdxStep(1)>>, JStr(cB)), Wr(2, <<NameStep(cA)>>, JInt(7)), Wr(3, <<IdxStep(0), NameStep(cA)>>, JInt(2)),
           Wr(2, <<>>, JArr(<<JObj(<<cA>>, <<JInt(1)>>)>>)),                                   \* replaces the whole document in place: $.b disappears
-          Wr(4, <<NameStep(cL), IdxStep(0)>>, JInt(3)) >>                                     \* changes the list the membership test reads
+          Wr(4, <<NameStep(cL), IdxStep(0)>>, JStr(cC)),                                     \* changes the list the membership test reads
+          Ev("prepared", 15, 4), Ev("query", 15, 4), Wr(4, <<NameStep(cY), IdxStep(0)>>, JInt(3)), Wr(4, <<NameStep(cX), IdxStep(1), IdxStep(0)>>, JInt(1)) >>                                     \* changes the list the membership test reads
 Progs == [i \in 1..Len(Ops) |-> <<Ops[i]>>] \o Cross2(Ops, Ops, LAMBDA a, b : <<a, b>>)
 
 Threads == {1, 2}
